@@ -77,10 +77,16 @@ func scanSpecDirs(dirs []string, scanFn scanSpecFunc) error {
 		err = filepath.Walk(dir, func(path string, info os.FileInfo, err error) error {
 			// for initial stat failure Walk calls us with nil info
 			if info == nil {
-				if errors.Is(err, fs.ErrNotExist) {
+				// A Spec directory we cannot even stat is skipped like a missing
+				// one, it must not prevent scanning the rest of the directories.
+				if path == dir || errors.Is(err, fs.ErrNotExist) {
 					return nil
 				}
-				return err
+				// same for directory entries, but Spec files are reported
+				if ext := filepath.Ext(path); ext != ".json" && ext != ".yaml" {
+					return nil
+				}
+				return scanFn(path, priority, nil, err)
 			}
 			// first call from Walk is for dir itself, others we skip
 			if info.IsDir() {
